@@ -33,7 +33,7 @@ package ackhandler
 //@ pred (h *receivedPacketHistory) w2() = forall2(j, k, 0, len(h.ranges), h.ranges[j].End + 1 < h.ranges[k].Start, trig(h.ranges, j), trig(h.ranges, k))
 //@ pred (h *receivedPacketHistory) rInv() = h.w1() && h.w2()
 
-//@ spec covered(h *receivedPacketHistory, q int64) bool = exists(k, 0, len(h.ranges), h.ranges[k].Start <= q && q <= h.ranges[k].End)
+//@ spec covered(h *receivedPacketHistory, q int64) bool = exists(k, 0, len(h.ranges), h.ranges[k].Start <= q && q <= h.ranges[k].End, trig(h.ranges, k))
 
 //@ func (h *receivedPacketHistory) IsPotentiallyDuplicate
 //@   props C07
@@ -70,9 +70,102 @@ package ackhandler
 //@   ensures [keeps] forall(q, implies(old(covered(h, q)), covered(h, q)))
 //@   ensures [only-p] forall(q, implies(covered(h, q) && q != p, old(covered(h, q))))
 //@   ensures [len] len(h.ranges) <= old(len(h.ranges)) + 1
+//@   ensures [array] samearray(h.ranges, old(h.ranges)) || isfresh(h.ranges)
 //@   modifies h.ranges, h.ranges[*]
 //@ loop (h *receivedPacketHistory) addToRanges #0
 //@   invariant -1 <= i && i < len(h.ranges) && len(h.ranges) >= 1
 //@   invariant forall(k, i+1, len(h.ranges), p + 1 < h.ranges[k].Start, trig(h.ranges, k))
 //@   modifies nothing
 //@   decreases i + 1
+
+//@ func (h *receivedPacketHistory) ReceivedPacket
+//@   props C07
+//@   requires h.rInv() && 0 <= p && p <= 4611686018427387903
+//@   ensures [inv] h.rInv()
+//@   ensures [stale] implies(p < old(h.deletedBelow), !result && len(h.ranges) == old(len(h.ranges)))
+//@   ensures [new-iff] implies(p >= old(h.deletedBelow), iff(result, !old(covered(h, p))))
+//@   ensures [bounded] len(h.ranges) <= max(old(len(h.ranges)), 64)
+//@   ensures [floor-kept] h.deletedBelow == old(h.deletedBelow)
+//@   modifies h.ranges, h.ranges[*]
+
+//@ func (h *receivedPacketHistory) HighestMissingUpTo
+//@   props C07
+//@   requires h.rInv() && 0 <= p && p <= 4611686018427387903
+//@   ensures [missing] implies(result != -1, !covered(h, result) && result <= p)
+//@   ensures [floor] implies(result != -1 && h.deletedBelow != -1, result >= h.deletedBelow || !covered(h, p))
+//@   modifies nothing
+//@ loop (h *receivedPacketHistory) HighestMissingUpTo #0
+//@   invariant -1 <= i && i < len(h.ranges) && len(h.ranges) >= 1
+//@   invariant 0 <= p && p <= old(p) && p <= h.ranges[len(h.ranges)-1].End
+//@   invariant implies(i >= 0, p <= h.ranges[i].End)
+//@   invariant forall(k, i+1, len(h.ranges), p < h.ranges[k].Start, trig(h.ranges, k))
+//@   decreases i + 1
+
+// ---------------- receivedPacketTracker (Initial / Handshake) ----------------
+//@ func (h *receivedPacketTracker) ReceivedPacket
+//@   props C07
+//@   requires h.packetHistory.rInv() && 0 <= pn && pn <= 4611686018427387903 && h.ect0 < 9223372036854775807 && h.ect1 < 9223372036854775807 && h.ecnce < 9223372036854775807
+//@   ensures [inv] h.packetHistory.rInv()
+//@   ensures [dup-error] implies(result != nil, h.ect0 == old(h.ect0) && h.ect1 == old(h.ect1) && h.ecnce == old(h.ecnce) && h.hasNewAck == old(h.hasNewAck))
+//@   ensures [dup-iff] iff(result != nil, pn < old(h.packetHistory.deletedBelow) || old(covered(&h.packetHistory, pn)))
+//@   ensures [ack-now] implies(result == nil && ackEliciting, h.hasNewAck)
+//@   ensures [ack-kept] implies(result == nil && !ackEliciting, h.hasNewAck == old(h.hasNewAck))
+//@   ensures [ecn] implies(result == nil, h.ect0 == old(h.ect0) + ite(ecn == 3, 1, 0) && h.ect1 == old(h.ect1) + ite(ecn == 2, 1, 0) && h.ecnce == old(h.ecnce) + ite(ecn == 4, 1, 0))
+//@   ensures [floor-kept] h.packetHistory.deletedBelow == old(h.packetHistory.deletedBelow)
+//@   modifies h.ect0, h.ect1, h.ecnce, h.hasNewAck, h.packetHistory.ranges, h.packetHistory.ranges[*]
+
+//@ func (h *receivedPacketTracker) IsPotentiallyDuplicate
+//@   props C07
+//@   requires h.packetHistory.rInv()
+//@   ensures [iff] iff(result, pn < h.packetHistory.deletedBelow || covered(&h.packetHistory, pn))
+//@   modifies nothing
+
+// ---------------- appDataReceivedPacketTracker ----------------
+//@ pred (h *appDataReceivedPacketTracker) tInv() = h.packetHistory.rInv() && h.maxAckDelay >= 0 && h.maxAckDelay <= 4611686018427387903 &&
+//@      0 <= h.ackElicitingPacketsReceivedSinceLastAck && h.ackElicitingPacketsReceivedSinceLastAck < 4611686018427387903 &&
+//@      h.ect0 < 9223372036854775807 && h.ect1 < 9223372036854775807 && h.ecnce < 9223372036854775807 &&
+//@      implies(h.lastAck != nil, h.lastAck.rangesValid())
+
+//@ func (h *appDataReceivedPacketTracker) IgnoreBelow
+//@   props C07
+//@   requires h.tInv()
+//@   ensures [monotone] h.ignoreBelow == max(old(h.ignoreBelow), pn)
+//@   ensures [history-monotone] h.packetHistory.deletedBelow >= old(h.packetHistory.deletedBelow)
+//@   ensures [forwarded] implies(pn > old(h.ignoreBelow), h.packetHistory.deletedBelow == max(old(h.packetHistory.deletedBelow), pn))
+//@   ensures [inv] h.packetHistory.rInv()
+//@   modifies h.ignoreBelow, h.packetHistory.deletedBelow, h.packetHistory.ranges, h.packetHistory.ranges[*]
+
+//@ func (h *appDataReceivedPacketTracker) isMissing
+//@   props C07
+//@   requires h.tInv()
+//@   ensures [iff] iff(result, h.lastAck != nil && p >= h.ignoreBelow && p < h.lastAck.AckRanges[0].Largest && !wire.ackcovers(h.lastAck, p))
+//@   modifies nothing
+
+//@ func (h *appDataReceivedPacketTracker) hasNewMissingPackets
+//@   props C07
+//@   requires h.tInv() && 0 <= h.largestObserved && h.largestObserved <= 4611686018427387903
+//@   ensures [needs-last-ack] implies(result, h.lastAck != nil && h.largestObserved >= 1)
+//@   let hm = lastresult("(*receivedPacketHistory).HighestMissingUpTo")
+//@   ensures [new-gap-iff] iff(result, h.lastAck != nil && h.largestObserved >= 1 && hm != -1 && hm >= h.lastAck.AckRanges[0].Largest)
+//@   modifies nothing
+
+//@ func (h *appDataReceivedPacketTracker) shouldQueueACK
+//@   props C07
+//@   requires h.tInv() && 0 <= h.largestObserved && h.largestObserved <= 4611686018427387903
+//@   ensures [missing] implies(wasMissing, result)
+//@   ensures [second] implies(h.ackElicitingPacketsReceivedSinceLastAck >= 2, result)
+//@   ensures [ce] implies(ecn == 4, result)
+//@   modifies nothing
+
+//@ func (h *appDataReceivedPacketTracker) ReceivedPacket
+//@   props C07
+//@   requires h.tInv() && 0 <= pn && pn <= 4611686018427387903 && 0 <= rcvTime && rcvTime <= 4611686018427387903 && 0 <= h.largestObserved && h.largestObserved <= 4611686018427387903
+//@   requires h.ackElicitingPacketsReceivedSinceLastAck < 4611686018427387902 && h.ect0 < 9223372036854775806 && h.ect1 < 9223372036854775806 && h.ecnce < 9223372036854775806
+//@   ensures [dup-untouched] implies(result != nil, h.ackQueued == old(h.ackQueued) && h.ackAlarm == old(h.ackAlarm) && h.largestObserved == old(h.largestObserved) && h.ackElicitingPacketsReceivedSinceLastAck == old(h.ackElicitingPacketsReceivedSinceLastAck))
+//@   ensures [dup-iff] iff(result != nil, pn < old(h.packetHistory.deletedBelow) || old(covered(&h.packetHistory, pn)))
+//@   ensures [deadline] implies(result == nil && ackEliciting, h.ackQueued || (h.ackAlarm != 0 && h.ackAlarm <= rcvTime + h.maxAckDelay) || rcvTime + h.maxAckDelay == 0)
+//@   ensures [second-packet] implies(result == nil && ackEliciting && old(h.ackElicitingPacketsReceivedSinceLastAck) >= 1, h.ackQueued)
+//@   ensures [queued-stays] implies(old(h.ackQueued), h.ackQueued)
+//@   ensures [largest] implies(result == nil, h.largestObserved == max(old(h.largestObserved), pn))
+//@   ensures [inv] h.packetHistory.rInv()
+//@   modifies h.ect0, h.ect1, h.ecnce, h.hasNewAck, h.packetHistory.ranges, h.packetHistory.ranges[*], h.largestObserved, h.largestObservedRcvdTime, h.ackElicitingPacketsReceivedSinceLastAck, h.ackQueued, h.ackAlarm
